@@ -78,8 +78,15 @@ def guards_of(body):
             return
         if k == "match":
             rec(n["e"], g)
+            failed = []   # (pattern text, guard) of earlier guarded arms: a later arm with the same pattern runs only if that guard failed
             for a in n["arms"]:
                 ga = g + [("pat", (n["e"], sir.pat_str(a["pat"])), True)]
+                ps_ = sir.pat_str(a["pat"])
+                for fp, fg in failed:
+                    if fp == ps_ or a["pat"].get("k") == "p_wild":
+                        ga = ga + _conj(fg, False) if len(_conj(fg, False)) == 1 else ga + [("cond", fg, False)]
+                if a.get("guard") is not None:
+                    failed.append((ps_, a["guard"]))
                 mark(a, ga)
                 if a.get("guard") is not None:
                     rec(a["guard"], ga)
